@@ -61,3 +61,35 @@ Qed.
 Lemma idle_check_returns s :
   wp s = WIdle -> blocked s = false -> exists s', wstep s (WCheck1 false) = Some s' /\ wp s' = WIdle.
 Proof. intros Hp Hb. unfold wstep. rewrite Hp, Hb. cbn [Bool.eqb]. eexists. split; reflexivity. Qed.
+
+(* Why the tie also checks that the evaluated predicate IS the published state (stage `finprobe`,
+   seeded change C17-r5: try_lock on the candidate's mutex in the finality predicate): a waiter
+   whose evaluation may answer "blocked" although the published predicate is unblocked loses the
+   wake-up - the safety theorem is refuted for that variant. *)
+Definition wstep_unfaithful (s : wstate) (e : wevent) : option wstate :=
+  match e with
+  | WCheck1 true =>
+      match wp s with WIdle => Some (setw s (registered s) (token s) (blocked s) WChecked1 (pp s)) | _ => None end
+  | WCheck2 true =>
+      match wp s with WChecked1 => Some (setw s (registered s) (token s) (blocked s) WChecked2 (pp s)) | _ => None end
+  | _ => wstep s e
+  end.
+
+Fixpoint wrun_unfaithful (s : wstate) (tr : list wevent) : option wstate :=
+  match tr with
+  | [] => Some s
+  | e :: tr' => match wstep_unfaithful s e with Some s' => wrun_unfaithful s' tr' | None => None end
+  end.
+
+Definition unfaithful_witness : list wevent :=
+  [WRegister; WCheck1 true; WCheck2 true; WPark;
+   PUnblock 0; PNotifyRead 0 true; PUnpark 0; WWake;
+   WCheck1 true; WCheck2 true; WPark].
+
+Lemma unfaithful_predicate_loses_wakeup :
+  exists s, wrun_unfaithful (winit true) unfaithful_witness = Some s /\
+            asleep_unblocked s = true /\ forall p, pending_at (pp s p) = false.
+Proof.
+  eexists. split; [vm_compute; reflexivity|]. split; [reflexivity|].
+  intros [|p]; reflexivity.
+Qed.
